@@ -84,6 +84,7 @@ def check(ctx):
     ctx.rule("T9-lastbid", "Framer.makeRunner assigns .desire before, never after, the actions of a control step (except the final ABORT)")
     ctx.rule("T6-fsm", "every control branch of makeRunner distinguishes running, stopped/readied and other status")
 
+    slaves_never_scheduled(ctx)
     want = ctx.cls("wanting", "Want")
     fiat = ctx.cls("fiating", "Fiat")
     wm = registry_members(repo, want)
@@ -270,3 +271,31 @@ def _is_stopped_test(t):
     return bool(m) and m[0] in ("status", "self.status") and m[1] == {"STOPPED", "READIED"}
 
 
+
+
+def slaves_never_scheduled(ctx):
+    """the scheduler takes its taskers from house.taskables and from nowhere else; a house's slaves never get into that list"""
+    ctx.rule("T6-slaves", "house.slaves is read only for display: what House.orderTaskables puts into .taskables does not come from "
+             ".slaves, and skedding.py never mentions .slaves")
+    H = ctx.cls("housing", "House")
+    k = 0
+    for mname, f in sorted(H.methods.items()):
+        for x in ast.walk(f):
+            if isinstance(x, ast.Attribute) and x.attr == "slaves" and isinstance(x.ctx, ast.Load):
+                k += 1
+                # allowed: inside a console display call
+                p, shown = x, False
+                while p is not None and p is not f:
+                    if isinstance(p, ast.Call) and (dotted(p.func) or "").startswith("console."):
+                        shown = True
+                    p = getattr(p, "_parent", None)
+                ctx.check(shown, "T6-slaves", x, "House.%s reads .slaves only to print them" % mname,
+                          "a slave tasker that gets into house.taskables (or any list the skedder schedules) is run by the scheduler "
+                          "every tick on its own desire: it then changes state without any fiat of its master")
+    sk = ctx.repo.modules.get("ioflo.base.skedding")
+    if sk is None:
+        raise AnchorError("ioflo.base.skedding not found")
+    ctx.use(sk.tree)
+    uses = [x for x in ast.walk(sk.tree) if isinstance(x, ast.Attribute) and x.attr == "slaves"]
+    ctx.check(not uses, "T6-slaves", uses[0] if uses else sk.tree, "skedding.py does not touch house.slaves", "the scheduler must not schedule slaves")
+    ctx.floor("T6-slaves:reads", k, 1)
